@@ -382,6 +382,9 @@ def run_once(case, mode, variant="proc"):
 
 
 def run_impl(case):
+    if case.get("k") == "mem":      # replay of an extra() memory case: number of distinct outcomes over the orders
+        res = [_mem_run(md, *case["args"]) for md in order_modes(case.get("korders", 6))]
+        return [len({tuple(r) for r in res})]
     k = case.get("korders", 6)
     modes = order_modes(k)
     base = run_once(case, modes[0])
@@ -757,9 +760,9 @@ def gen_cases(tier, seed):
                 for style in styles:
                     n += 1
                     cases.append(_clock_case(period, phase, "neg" if n % 3 == 0 else "pos", style, n % 2 == 0, n))
-    for _ in range(600 if thorough else 60):
+    for _ in range(400 if thorough else 60):
         cases.append(_delay_case(rng))
-    for i in range(5000 if thorough else 420):
+    for i in range(3000 if thorough else 420):
         cases.append(_scenario(rng, want_uproc=(i % 3 == 0)))
     for c in cases:
         c["korders"] = k
@@ -785,3 +788,77 @@ def known_finding(case, obs, model):
 
 def explain(c):
     return __doc__.split("Trace records:")[1]
+
+
+# ------------------------------------------------------------------ memories (not modelled): order comparison only
+def _mem_run(mode, addr_a, addr_b, coincident=True, en_b=1):
+    """lib.memory.Memory with write ports in domains a and b (data 0xAA / 0xBB), a read port; returns the rows."""
+    from amaranth.hdl import Module, ClockDomain, Cat
+    from amaranth.lib.memory import Memory
+    from amaranth.sim import Simulator
+    install()
+    _Ctl.mode = None
+    m = Module()
+    m.domains.a = cd_a = ClockDomain("a")
+    m.domains.b = cd_b = ClockDomain("b")
+    m.submodules.mem = mem = Memory(shape=8, depth=4, init=[1, 2, 3, 4])
+    wa = mem.write_port(domain="a")
+    wb = mem.write_port(domain="b")
+    rd = mem.read_port(domain="comb")
+    sim = Simulator(m)
+    rows = []
+
+    async def tb(ctx):
+        ctx.set(wa.addr, addr_a); ctx.set(wa.data, 0xAA); ctx.set(wa.en, 1)
+        ctx.set(wb.addr, addr_b); ctx.set(wb.data, 0xBB); ctx.set(wb.en, en_b)
+        if coincident:
+            ctx.set(Cat(cd_a.clk, cd_b.clk), 3)
+        else:
+            ctx.set(cd_a.clk, 1)
+            ctx.set(cd_b.clk, 1)
+        for a in range(4):
+            ctx.set(rd.addr, a)
+            rows.append(int(ctx.get(rd.data)))
+    sim.add_testbench(tb)
+    _Ctl.mode = mode
+    _Ctl.counter = 0
+    try:
+        sim.run()
+    finally:
+        _Ctl.mode = None
+    return rows
+
+
+def extra(tier, seed, findings):
+    """Memories are outside the Coq model: write ports in two domains are compared across orders.  Disjoint addresses,
+    non-coincident edges and a disabled second port must be order independent; the coincident same-address collision
+    violates write_disjoint and is the known order dependence S1."""
+    viol, cov = [], {}
+    modes = order_modes(40 if tier == "thorough" else 6)
+    benign = 0
+    for (aa, ab, co, en) in [(0, 1, True, 1), (2, 3, True, 1), (0, 0, False, 1), (1, 1, True, 0), (3, 3, False, 1)]:
+        res = [_mem_run(md, aa, ab, co, en) for md in modes]
+        benign += 1
+        if any(r != res[0] for r in res):
+            viol.append({"property": ID, "kind": "input", "case": {"k": "mem", "args": [aa, ab, co, en], "korders": len(modes)},
+                         "expected_by_model": [1], "observed": [len({tuple(r) for r in res})],
+                         "explain": "memory rows depend on the set iteration order although the two write ports never "
+                                    "write one row in one delta"})
+    res = [_mem_run(md, 0, 0, True, 1) for md in modes]
+    dep = any(r != res[0] for r in res)
+    cov["memory_order_cases"] = benign + 1
+    cov["s1_collision_order_dependent"] = dep
+    if dep:
+        listed = any(f.get("property") == ID and f.get("id") == S1_ID and f.get("status") == "open" for f in findings)
+        payload = {"property": ID, "kind": "input",
+                   "case": {"k": "mem", "args": [0, 0, True, 1], "korders": len(modes), "finding": S1_ID,
+                            "what": "Memory depth 4, write ports in domains a and b both enabled on address 0 with data "
+                                    "0xAA / 0xBB, ctx.set(Cat(clk_a, clk_b), 3)"},
+                   "expected_by_model": [1], "observed": [len({tuple(r) for r in res})],
+                   "row0_values": sorted({r[0] for r in res}),
+                   "explain": "cross-domain same-address write collision: the surviving row depends on the process order "
+                              "(violates write_disjoint; undefined in hardware, silent in the simulator)"}
+        if listed:
+            payload["known"] = f"{S1_ID}: row 0 ends as {sorted({r[0] for r in res})} depending on the process order"
+        viol.append(payload)
+    return viol, cov
